@@ -50,6 +50,45 @@ def worker(kp, job):
     return {'records': [r]}
 
 
+# pairs (signifier of several characters, a signifier it contains) whose two orders are read as the same two signifiers
+LONG_SHORT = [('&(', '('), ('&)', ')'), ('&&(', '('), ('&&)', ')'), ('Ww', 'w'), ('Ww', 'W'), ('[y', '['), ('&(', '&&(')]
+
+
+def multi_worker(kp, job):
+    """a note (alone or as a note of a chord) carrying a signifier of several characters AND a signifier contained in it,
+    in both orders, next to one-character signifiers: the extended export lists exactly these signifiers (none dropped)"""
+    seed, idx = job
+    rng = random.Random(seed * 611953 + idx)
+    records = []
+    for _ in range(30):
+        long_, short = rng.choice(LONG_SHORT)
+        extra = rng.sample(['L', 'J', ';', "'", '^', '~', ':', 'O', 'S'], rng.randint(0, 2))
+        ds = [long_, short] + extra
+        rng.shuffle(ds)
+        if rng.random() < 0.5 and ds.index(long_) < ds.index(short):
+            ds[ds.index(long_)], ds[ds.index(short)] = short, long_      # both orders equally often
+        note = rng.choice(['4', '8', '2.']) + rng.choice(['c', 'dd', 'E', 'GG']) + ''.join(ds)
+        chord = rng.random() < 0.4
+        cell = note if not chord else rng.choice([note + ' 4g', '4g ' + note])
+        text = f'**kern\n*clefG2\n{cell}\n*-\n'
+        viol = []
+        try:
+            doc, errs = kp.loads(text)
+            out = kp.dumps(doc, encoding=kp.Encoding.eKern)
+            got_cell = out.split('\n')[2]
+            target = got_cell.split(' ')[cell.split(' ').index(note)] if chord else got_cell
+            got = set(target.split('\u00b7')[1:])
+            if errs:
+                viol.append(('import-errors', f'signifiers of several characters: {cell!r} imports with errors', {'text': text}))
+            elif not set(ds) <= got:
+                viol.append(('conserved', f'signifiers of several characters: {cell!r} is exported as {got_cell!r}: the signifiers {sorted(set(ds) - got)} '
+                             f'of {note!r} are lost', {'text': text}))
+        except Exception as e:
+            viol.append(('export-raises', f'signifiers of several characters: {cell!r} raised {type(e).__name__}', {'text': text}))
+        records.append(engine.rec('multi', viol=viol, kind='multi-char-signifiers', key=('multi', cell)))
+    return {'records': records}
+
+
 def run(chk):
     b = core.standard_build(chk)
     model = core.Model() if b.modelrun_ok else None
@@ -58,8 +97,10 @@ def run(chk):
     chk.rule = ('generated documents of the supported grammar (1-4 spines of every type, interpretations, every barline type, '
                 'notes / rests / chords with arbitrary signifier layouts, null tokens, field and global comments, splits and '
                 'joins; every 5th with hidden barlines, every 7th with separator characters inside lyrics); each compared cell '
-                'by cell with the generator\'s own description; non-trivial = distinct text')
+                'by cell with the generator\'s own description; notes carrying a signifier of several characters together with a signifier '
+                'it contains (&( and (, Ww and w, [y and [ ...), in both orders; non-trivial = distinct text')
     results = engine.pmap(worker, [(chk.seed, i) for i in range(n)])
+    results += engine.pmap(multi_worker, [(chk.seed, i) for i in range(core.budget(chk, full, 8, 80))])
     engine.settle(chk, results, model)
     chk.disagreements_checked = len(chk.broken)
 
